@@ -1572,9 +1572,15 @@ class Color(object):
     def parse_color_rgbp(values):
         """Parse SVG color, RGB percent value declarations"""
         ratio = 255.0 / 100.0
-        r = round(float(values[0]) * ratio)
-        g = round(float(values[1]) * ratio)
-        b = round(float(values[2]) * ratio)
+
+        def channel(v):
+            # clamp before rounding: round() of an infinite value (e.g. 1e999%) raises OverflowError
+            v = float(v) * ratio
+            return 255 if v > 255 else 0 if v < 0 else round(v)
+
+        r = channel(values[0])
+        g = channel(values[1])
+        b = channel(values[2])
         if values[3] is not None:
             opacity = float(values[3])
         else:
